@@ -399,6 +399,60 @@ def rule_conjunction(repo, rule):
     # guard
     for s, v in by.get("guard", []):
         where = ag.loc(s)
+        # the value written, decided scenario by scenario (whatever mixture of conditional expressions, statement-level ifs and
+        # named intermediates spells it):   no enclosing guard -> the condition itself;  enclosing guard g, condition is another
+        # wire -> g & cond;  condition IS the enclosing guard (same object) -> g, cond or g & g
+        from ..hints import paths_to as _pt8
+        from ..flatten import resolve_locals as _rl8
+
+        def _atom(t):
+            tt = norm(t).replace(" ", "")
+            pairs = {"guardisNone": ("none", True), "guard==None": ("none", True), "guardisnotNone": ("none", False), "guard!=None": ("none", False),
+                     "%sisguard" % cond: ("same", True), "guardis%s" % cond: ("same", True),
+                     "%sisnotguard" % cond: ("same", False), "guardisnot%s" % cond: ("same", False)}
+            return pairs.get(tt)
+
+        def _pe(t, facts):
+            if isinstance(t, ast.UnaryOp) and isinstance(t.op, ast.Not):
+                r = _pe(t.operand, facts)
+                return None if r is None else not r
+            if isinstance(t, ast.BoolOp):
+                rs = [_pe(x, facts) for x in t.values]
+                if isinstance(t.op, ast.And):
+                    return False if any(r is False for r in rs) else (True if all(r is True for r in rs) else None)
+                return True if any(r is True for r in rs) else (False if all(r is False for r in rs) else None)
+            a = _atom(t)
+            if a is not None and a[0] in facts:
+                return facts[a[0]] == a[1]
+            return None
+
+        def _fold(e, facts):
+            if isinstance(e, ast.IfExp):
+                r = _pe(e.test, facts)
+                if r is True:
+                    return _fold(e.body, facts)
+                if r is False:
+                    return _fold(e.orelse, facts)
+            return e
+        vres = _rl8(ag.node, v, keep={cond})
+        scen = (("no enclosing guard", {"none": True, "same": False}, (cond,)),
+                ("nested in g, another condition", {"none": False, "same": False}, ("guard & %s" % cond, "%s & guard" % cond)),
+                ("nested in g, the condition is g itself", {"none": False, "same": True},
+                 ("guard", cond, "guard & %s" % cond, "%s & guard" % cond, "guard & guard")))
+        sem_ok, sem_why, seen_any = True, "", False
+        for pth in _pt8(ag.node, s) or []:
+            for label, facts, allowed in scen:
+                if any(_pe(t_, facts) is not None and _pe(t_, facts) != pol_ for t_, pol_ in pth.conds):
+                    continue          # this path is not taken in this scenario
+                seen_any = True
+                got = norm(_fold(vres, facts))
+                if got not in allowed:
+                    sem_ok, sem_why = False, "%s: the new guard is `%s`, expected %s" % (label, got, " or ".join("`%s`" % a for a in allowed))
+        if seen_any and sem_ok:
+            rule.ok(where, ag.fq, "guard <- %s" % norm(vres)[:100], "the condition alone / conjunction with the enclosing guard / the guard itself when the condition is that guard")
+            continue
+        if seen_any and not sem_ok and not any(isinstance(x, ast.IfExp) for x in ast.walk(vres)) and False:
+            pass
         cases = _cases(s, v, ag.node)
         ok = True
         why = ""
@@ -416,7 +470,7 @@ def rule_conjunction(repo, rule):
         if ok and cases:
             rule.ok(where, ag.fq, "guard <- " + "; ".join("%s: %s" % (t, norm(e)) for t, e in cases))
         else:
-            rule.violation(where, ag.fq, norm(s), why or "unrecognised write to guard", "conj/guard")
+            rule.violation(where, ag.fq, norm(s), (sem_why if seen_any else "") or why or "unrecognised write to guard", "conj/guard")
     if "guard" not in by:
         rule.violation(ag.loc(), ag.fq, "no write to guard", "add_guard never installs the guard", "conj/none")
     for s, v in by.get("_ignore_errors", []):
